@@ -1004,7 +1004,7 @@ func stackSpaces(tier string) []space {
 		return m
 	}
 	xfAll := map[int][]int{fXFF: seq(4), fXFP: seq(3), fXFH: seq(3), fXFU: seq(3)}
-	sc, envSel := smallConn(7), seq(nEnv)
+	sc, envSel := smallConn(4), seq(nEnv)
 	if tier == "quick" {
 		sc, envSel = []int{0, connIndex([]string{"close", " X-Bar "})}, []int{0, 11}
 	}
@@ -1020,13 +1020,27 @@ func stackSpaces(tier string) []space {
 			// every subset of the fixed headers with Connection lists of up to 2 tokens, the small/large subsets with all lists
 			out = append(out, mkSpace(dir+"/hop=Conn(<=2 tokens per line)*XFoo*XBar*Fixed(all subsets)*TE{none,chunked}", dir,
 				map[int][]int{fConn: shortConn(), fXFoo: xfoo, fXBar: xbar, fFixed: allFixed, fTE: {0, 1}}))
-			out = append(out, mkSpace(dir+"/hop=Conn*XFoo*XBar*Fixed{0,1,n-1,n of 7}*TE{none,chunked}", dir, hop(map[int][]int{fFixed: fixedQuick, fTE: {0, 1}})))
+			out = append(out, mkSpace(dir+"/hop=Conn*XFoo*XBar*Fixed{0,1,n-1,n of 7}", dir, hop(map[int][]int{fFixed: fixedQuick})))
 		}
-		out = append(out, mkSpace(dir+"/hop*Via", dir, hop(map[int][]int{fVia: seq(nVia)})))
-		out = append(out, mkSpace(dir+"/hop*CL*TE", dir, hop(framing)))
-		// each X-Forwarded-* header varied on its own, plus all present together
+		// the hop group pairwise with every other group (full product of the pair)
+		switch {
+		case dir == "req" && tier == "quick":
+			out = append(out, mkSpace(dir+"/hop*Via", dir, hop(map[int][]int{fVia: seq(nVia)})))
+			out = append(out, mkSpace(dir+"/hop*CL*TE", dir, hop(framing)))
+		case dir == "req":
+			out = append(out, mkSpace(dir+"/hop*Via", dir, hop(map[int][]int{fVia: seq(nVia)})))
+			out = append(out, mkSpace(dir+"/hop(<=2 tokens per line)*CL*TE", dir, map[int][]int{fConn: shortConn(), fXFoo: xfoo, fXBar: xbar, fCL: framing[fCL], fTE: framing[fTE]}))
+			out = append(out, mkSpace(dir+"/hop*CL{none,5,5|6}*TE{none,chunked,gzip}", dir, hop(map[int][]int{fCL: {0, 1, 4}, fTE: {0, 1, 4}})))
+			out = append(out, mkSpace(dir+"/hop*TE", dir, hop(map[int][]int{fTE: framing[fTE]})))
+			out = append(out, mkSpace(dir+"/hop*CL", dir, hop(map[int][]int{fCL: framing[fCL]})))
+		default: // nothing but the hop-by-hop modifier acts on a response: fewer values of the other groups
+			out = append(out, mkSpace(dir+"/hop*Via{none,two lines,self on second line}", dir, hop(map[int][]int{fVia: {0, 3, 10}})))
+			out = append(out, mkSpace(dir+"/hop*CL{none,5,5|6}*TE{none,chunked,gzip}", dir, hop(map[int][]int{fCL: {0, 1, 4}, fTE: {0, 1, 4}})))
+		}
+		// each X-Forwarded-* header: For varied on its own, all present together on one / two lines
 		out = append(out, mkSpace(dir+"/hop*XFF", dir, hop(map[int][]int{fXFF: seq(4)})))
-		out = append(out, mkSpace(dir+"/hop*XF{all one, all two lines}", dir, hop(map[int][]int{fXFF: {1, 2}, fXFP: {1, 2}, fXFH: {1, 2}, fXFU: {1, 2}})))
+		out = append(out, mkSpace(dir+"/hop*XF{all one line}", dir, hop(map[int][]int{fXFF: {1}, fXFP: {1}, fXFH: {1}, fXFU: {1}})))
+		out = append(out, mkSpace(dir+"/hop*XF{all two lines}", dir, hop(map[int][]int{fXFF: {2}, fXFP: {2}, fXFH: {2}, fXFU: {2}})))
 		if tier != "quick" {
 			m := map[int][]int{fConn: shortConn(), fXFoo: xfoo, fXBar: xbar}
 			for k, v := range xfAll {
@@ -1034,6 +1048,7 @@ func stackSpaces(tier string) []space {
 			}
 			out = append(out, mkSpace(dir+"/hop(<=2 tokens per line)*XFF*XFProto*XFHost*XFUrl", dir, m))
 		}
+		// full product of all non-hop groups over a few Connection configurations
 		m := map[int][]int{fConn: sc, fXFoo: {0, 2}, fXBar: xbarSmall, fFixed: fixedNoneAll, fVia: seq(nVia), fCL: framing[fCL], fTE: framing[fTE]}
 		for k, v := range xfAll {
 			m[k] = v
@@ -1049,7 +1064,7 @@ func stackSpaces(tier string) []space {
 func (s *space) describe() string {
 	var parts []string
 	for f := 0; f < nf; f++ {
-		if len(s.Doms[f]) > 1 {
+		if len(s.Doms[f]) > 1 || s.Doms[f][0] != 0 {
 			parts = append(parts, fmt.Sprintf("%s:%d", factorNames[f], len(s.Doms[f])))
 		}
 	}
@@ -1398,6 +1413,7 @@ type proxyWorld struct {
 	proxyAddr string
 	id        identity
 	seq       int64
+	refused   map[string]bool
 }
 
 func newProxyWorld() (*proxyWorld, error) {
@@ -1415,7 +1431,7 @@ func newProxyWorld() (*proxyWorld, error) {
 		return nil, err
 	}
 	go p.Serve(l)
-	w := &proxyWorld{origin: o, proxyAddr: l.Addr().String()}
+	w := &proxyWorld{origin: o, proxyAddr: l.Addr().String(), refused: map[string]bool{}}
 	// learn this instance's Via identity from what the origin receives for a plain request
 	ex := w.exchange("probe", nil, nil)
 	if len(ex.Origin) != 1 {
@@ -1549,6 +1565,21 @@ func checkOwnHop(fs *fails, out http.Header) {
 	}
 }
 
+// refusedByParser says whether the request of c with the Via chain removed is dropped by the proxy without an
+// answer and without reaching the origin, i.e. net/http's request parser refuses its framing.
+func (w *proxyWorld) refusedByParser(c Case) bool {
+	c.F[fVia] = 0
+	key := fmt.Sprint(c.F)
+	if r, ok := w.refused[key]; ok {
+		return r
+	}
+	id := strconv.FormatInt(atomic.AddInt64(&w.seq, 1), 10)
+	ex := w.exchange(id, buildHeader(c, w.id), nil)
+	r := ex.Outcome == "closed_no_response" && len(ex.Origin) == 0
+	w.refused[key] = r
+	return r
+}
+
 func (w *proxyWorld) evalProxy(c Case) (fs fails, ex exchangeT) {
 	in := buildHeader(c, w.id)
 	id := strconv.FormatInt(atomic.AddInt64(&w.seq, 1), 10)
@@ -1591,8 +1622,8 @@ func (w *proxyWorld) evalProxy(c Case) (fs fails, ex exchangeT) {
 		switch {
 		case len(ex.Origin) > 0:
 			fs.add("loop_sent_upstream", "Via %q names this instance (%s) but the origin received the request (Via there: %q); client got %s %d", in["Via"], w.id.rb, ex.Origin[0].H["Via"], ex.Outcome, ex.Status)
-		case ex.Outcome == "closed_no_response" && bad:
-			// refused by net/http before any modifier ran
+		case ex.Outcome == "closed_no_response" && w.refusedByParser(c):
+			// the same message without the loop is refused by net/http's request parser too: no modifier ever ran
 		case ex.Outcome != "response" || ex.Status != 400:
 			fs.add("loop_response_not_400", "Via %q names this instance, not sent upstream, but the client got %s %d", in["Via"], ex.Outcome, ex.Status)
 		}
